@@ -35,8 +35,20 @@ Proof.
 Qed.
 
 (* where the marker of the Synchronize in progress is, seen from the saver *)
+(* S is in its loop or inside a save (not inside CompleteSynchronization) *)
+Definition srunb (x : spc_t) : bool := match x with SRun | SSaving _ _ => true | _ => false end.
+(* the save in progress, if any *)
+Definition cur (s : sst) : list pmap := match spc s with SSaving m _ => [m] | _ => [] end.
+(* the directory: while a save is in progress its remaining calls will run through and leave the
+   bytes of the store being saved; otherwise the file holds the last completed save *)
+Definition dfact (s : sst) : Prop :=
+  match spc s with
+  | SSaving m rest => exists df, fs_run fs_step rest (sdisk s) = Some df /\ f_conf df = Some (save_bytes m)
+  | _ => forall m, last_opt (completed s) = Some m -> f_conf (sdisk s) = Some (save_bytes m)
+  end.
+
 Definition sstat (s : sst) : Prop :=
-  (spc s = SRun /\ done s = false /\ mtx s <> Some TS /\ exists ps, Q s = map ISave ps ++ [IMarker]) \/
+  (srunb (spc s) = true /\ done s = false /\ mtx s <> Some TS /\ exists ps, Q s = map ISave ps ++ [IMarker]) \/
   (spc s = SMLocked /\ done s = false /\ mtx s = Some TS /\ Q s = []) \/
   (spc s = SMSet /\ done s = true /\ mtx s = Some TS /\ Q s = []) \/
   (spc s = SMSignalled /\ done s = true /\ mtx s = Some TS /\ Q s = []) \/
@@ -48,12 +60,12 @@ Definition sync_ok (e : list pmap * list pmap * fs) : Prop :=
 
 Definition inv (s : sst) : Prop :=
   hazard s = false /\
-  issued s = completed s ++ saves_of (Q s) /\
-  (forall m, last_opt (completed s) = Some m -> f_conf (sdisk s) = Some (save_bytes m)) /\
+  issued s = completed s ++ cur s ++ saves_of (Q s) /\
+  dfact s /\
   Forall sync_ok (synclog s) /\
   match mpc s with
-  | MIdle => alive s = false /\ spc s = SRun /\ mtx s = None /\ exists ps, Q s = map ISave ps
-  | MLocked => alive s = true /\ spc s = SRun /\ mtx s = Some TM /\ done s = false /\
+  | MIdle => alive s = false /\ srunb (spc s) = true /\ mtx s = None /\ exists ps, Q s = map ISave ps
+  | MLocked => alive s = true /\ srunb (spc s) = true /\ mtx s = Some TM /\ done s = false /\
                exists ps, Q s = map ISave ps
   | MPushed => alive s = true /\ mtx s = Some TM /\ sstat s
   | MWaiting | MWoken => alive s = true /\ mtx s <> Some TM /\ sstat s
@@ -65,13 +77,13 @@ Lemma inv_ext s s' :
   synclog s' = synclog s -> mpc s' = mpc s -> spc s' = spc s -> mtx s' = mtx s -> done s' = done s ->
   alive s' = alive s -> Q s' = Q s -> inv s -> inv s'.
 Proof.
-  intros E1 E2 E3 E4 E5 E6 E7 E8 E9 E10 E11 H. unfold inv, sstat in *.
+  intros E1 E2 E3 E4 E5 E6 E7 E8 E9 E10 E11 H. unfold inv, sstat, dfact, cur in *.
   rewrite E1, E2, E3, E4, E5, E6, E7, E8, E9, E10, E11. exact H.
 Qed.
 
 Lemma inv_init p d : f_conf d = None \/ True -> inv (init p d).
 Proof.
-  intros _. unfold inv, init, Q. sc. repeat split; try reflexivity.
+  intros _. unfold inv, init, Q, dfact, cur. sc. repeat split; try reflexivity.
   - intros m H. discriminate.
   - constructor.
   - exists []. reflexivity.
@@ -80,7 +92,7 @@ Qed.
 Lemma spurious_inv s : inv s -> inv (spurious_step s).
 Proof.
   unfold spurious_step. intros H. destruct (mpc s) eqn:E; try exact H.
-  unfold inv, sstat, Q in *. sc. rewrite E in H. exact H.
+  unfold inv, sstat, Q, dfact, cur in *. sc. rewrite E in H. exact H.
 Qed.
 
 Lemma main_inv s : inv s -> inv (main_step true s).
@@ -90,20 +102,22 @@ Proof.
     destruct Hm as (Ha & Hs & Hx & ps & Hq).
     destruct (prog s) as [|[m|] r] eqn:Ep.
     + exact Hinv.
-    + unfold inv, Q in *. sc. rewrite E. repeat split; try assumption.
-      * rewrite app_assoc, saves_of_app, Hi. cbn. rewrite app_assoc. reflexivity.
+    + unfold inv, Q, cur in *. sc. rewrite E. repeat split; try assumption.
+      * rewrite (app_assoc (batch s)), saves_of_app, Hi. cbn [saves_of flat_map app].
+        rewrite <- !app_assoc. reflexivity.
       * exists (ps ++ [m]). rewrite app_assoc, Hq, map_app. reflexivity.
-    + unfold inv, Q in *. sc. repeat split; try assumption. exists ps; exact Hq.
+    + unfold inv, Q, cur in *. sc. repeat split; try assumption. exists ps; exact Hq.
   - (* MLocked *)
     destruct Hm as (Ha & Hs & Hx & Hdn & ps & Hq).
-    unfold inv, sstat, Q in *. sc. repeat split; try assumption.
-    + rewrite app_assoc, saves_of_app, Hi. cbn. rewrite app_nil_r. reflexivity.
+    unfold inv, sstat, Q, cur in *. sc. repeat split; try assumption.
+    + rewrite (app_assoc (batch s)), saves_of_app, Hi. cbn [saves_of flat_map app].
+      rewrite app_nil_r. reflexivity.
     + left. repeat split; try assumption; [congruence|]. exists ps. rewrite app_assoc, Hq. reflexivity.
   - (* MPushed *)
     destruct Hm as (Ha & Hx & Hst). cbn [andb].
     destruct (done s) eqn:Ed.
-    + unfold inv, sstat, Q in *. sc. rewrite Ed in *. repeat split; assumption.
-    + unfold inv, sstat, Q in *. sc. rewrite Ed in *. repeat split; try assumption; try discriminate.
+    + unfold inv, sstat, Q, cur in *. sc. rewrite Ed in *. repeat split; assumption.
+    + unfold inv, sstat, Q, cur in *. sc. rewrite Ed in *. repeat split; try assumption; try discriminate.
       destruct Hst as [H|[H|[H|[H|H]]]]; destruct H as (H1 & H2 & H3 & H4); try congruence.
       left. repeat split; try assumption. discriminate.
   - (* MWaiting *)
@@ -111,7 +125,7 @@ Proof.
   - (* MWoken *)
     destruct Hm as (Ha & Hx & Hst). destruct (mtx s) as [t|] eqn:Et.
     + exact Hinv.
-    + unfold inv, sstat, Q in *. sc. rewrite Et in *. repeat split; try assumption.
+    + unfold inv, sstat, Q, cur in *. sc. rewrite Et in *. repeat split; try assumption.
       destruct Hst as [H|[H|[H|[H|H]]]]; destruct H as (H1 & H2 & H3 & H4); try congruence.
       * left. repeat split; try assumption. discriminate.
       * right; right; right; right. repeat split; try assumption. discriminate.
@@ -119,15 +133,21 @@ Proof.
     destruct Hm as (Ha & Hx & Hdn & Hst).
     assert (spc s = SRun /\ Q s = []) as [Hs Hq].
     { destruct Hst as [H|[H|[H|[H|H]]]]; destruct H as (H1 & H2 & H3 & H4); try congruence. auto. }
-    assert (issued s = completed s) as Hc by (rewrite Hi, Hq; cbn; apply app_nil_r).
-    unfold inv, Q in *. sc. repeat split; try assumption.
+    assert (issued s = completed s) as Hc.
+    { rewrite Hi, Hq. unfold cur. rewrite Hs. cbn. apply app_nil_r. }
+    pose proof Hd as Hd0. unfold dfact in Hd0. rewrite Hs in Hd0.
+    unfold inv, Q, cur in *. sc. repeat split; try assumption.
     + apply Forall_app. split; [exact Hl|]. constructor; [|constructor].
-      split; [symmetry; exact Hc|]. intros m Hm. apply Hd. rewrite <- Hc. exact Hm.
+      split; [symmetry; exact Hc|]. intros m Hm. apply Hd0. rewrite <- Hc. exact Hm.
+    + rewrite Hs. reflexivity.
     + exists []. exact Hq.
 Qed.
 
 Lemma Q_pop s i r : batch s = i :: r -> Q s = i :: (r ++ queue s).
 Proof. unfold Q. intros ->. reflexivity. Qed.
+
+(* what Hm says when S is not inside CompleteSynchronization *)
+Ltac sstat_cases H := destruct H as [H|[H|[H|[H|H]]]]; destruct H as (?H1 & ?H2 & ?H3 & ?H4).
 
 Lemma saver_inv s : inv s -> inv (saver_step true s).
 Proof.
@@ -137,76 +157,117 @@ Proof.
     + (* swap *)
       apply (inv_ext s); try reflexivity; [|exact Hinv].
       unfold Q. sc. rewrite Eb. cbn [app]. apply app_nil_r.
-    + (* a save *)
-      destruct (save_runs m (sdisk s)) as (d' & R & Ec). rewrite R.
+    + (* a save is taken off the list and started *)
       pose proof (Q_pop s _ _ Eb) as Hq.
-      assert (issued s = (completed s ++ [m]) ++ saves_of (r ++ queue s)) as Hi'.
-      { rewrite Hi, Hq. cbn. rewrite <- app_assoc. reflexivity. }
-      assert (forall m0, last_opt (completed s ++ [m]) = Some m0 -> f_conf d' = Some (save_bytes m0)) as Hd'.
-      { intros m0 H. rewrite last_opt_snoc in H. congruence. }
-      unfold inv, sstat in *. unfold Q at 1 2 3 4 5 6 7 8. sc. fold (r ++ queue s).
-      split; [exact Hz|]. split; [exact Hi'|]. split; [exact Hd'|]. split; [exact Hl|].
-      rewrite Hq in Hm.
+      destruct (save_runs m (sdisk s)) as (d' & R & Ec).
+      unfold inv, sstat, dfact, cur in *. unfold Q at 1 2 3 4 5 6 7 8. sc. fold (r ++ queue s).
+      rewrite Es in Hi. rewrite Hq in Hi, Hm. cbn [srunb] in *.
+      split; [exact Hz|]. split; [exact Hi|]. split; [exists d'; auto|]. split; [exact Hl|].
       destruct (mpc s).
       * destruct Hm as (A & B & C & ps & D). repeat split; try assumption.
         destruct ps as [|p ps]; [discriminate|]. inversion D. exists ps. assumption.
       * destruct Hm as (A & B & C & C' & ps & D). repeat split; try assumption.
         destruct ps as [|p ps]; [discriminate|]. inversion D. exists ps. assumption.
       * destruct Hm as (A & B & H). repeat split; try assumption.
-        destruct H as [H|[H|[H|[H|H]]]]; destruct H as (H1 & H2 & H3 & H4); try congruence; try discriminate.
+        sstat_cases H; try congruence; try discriminate.
         destruct H4 as (ps & D). destruct ps as [|p ps]; [discriminate|]. inversion D.
         left. repeat split; try assumption. exists ps. assumption.
       * destruct Hm as (A & B & H). repeat split; try assumption.
-        destruct H as [H|[H|[H|[H|H]]]]; destruct H as (H1 & H2 & H3 & H4); try congruence; try discriminate.
+        sstat_cases H; try congruence; try discriminate.
         destruct H4 as (ps & D). destruct ps as [|p ps]; [discriminate|]. inversion D.
         left. repeat split; try assumption. exists ps. assumption.
       * destruct Hm as (A & B & H). repeat split; try assumption.
-        destruct H as [H|[H|[H|[H|H]]]]; destruct H as (H1 & H2 & H3 & H4); try congruence; try discriminate.
+        sstat_cases H; try congruence; try discriminate.
         destruct H4 as (ps & D). destruct ps as [|p ps]; [discriminate|]. inversion D.
         left. repeat split; try assumption. exists ps. assumption.
       * destruct Hm as (A & B & C & H). repeat split; try assumption.
-        destruct H as [H|[H|[H|[H|H]]]]; destruct H as (H1 & H2 & H3 & H4); try congruence; try discriminate.
+        sstat_cases H; try congruence; try discriminate.
     + (* the marker: Lock *)
-      pose proof (Q_pop s _ _ Eb) as Hq. unfold sstat in Hm. rewrite Hq in Hm, Hi.
+      pose proof (Q_pop s _ _ Eb) as Hq. unfold sstat in Hm. rewrite Hq in Hm, Hi. cbn [srunb] in Hm.
       assert (alive s = true /\ r ++ queue s = [] /\ done s = false /\ mpc s <> MIdle /\ mpc s <> MLocked /\ mpc s <> MDoneSeen)
         as (Ha & Hr & Hdn & N1 & N2 & N3).
       { destruct (mpc s).
         - destruct Hm as (_ & _ & _ & ps & D). destruct ps; discriminate.
         - destruct Hm as (_ & _ & _ & _ & ps & D). destruct ps; discriminate.
-        - destruct Hm as (A & B & H).
-          destruct H as [H|[H|[H|[H|H]]]]; destruct H as (H1 & H2 & H3 & H4); try congruence; try discriminate.
+        - destruct Hm as (A & B & H). sstat_cases H; try congruence; try discriminate.
           destruct H4 as (ps & D). destruct ps as [|p ps]; [|discriminate]. inversion D.
           repeat split; try assumption; discriminate.
-        - destruct Hm as (A & B & H).
-          destruct H as [H|[H|[H|[H|H]]]]; destruct H as (H1 & H2 & H3 & H4); try congruence; try discriminate.
+        - destruct Hm as (A & B & H). sstat_cases H; try congruence; try discriminate.
           destruct H4 as (ps & D). destruct ps as [|p ps]; [|discriminate]. inversion D.
           repeat split; try assumption; discriminate.
-        - destruct Hm as (A & B & H).
-          destruct H as [H|[H|[H|[H|H]]]]; destruct H as (H1 & H2 & H3 & H4); try congruence; try discriminate.
+        - destruct Hm as (A & B & H). sstat_cases H; try congruence; try discriminate.
           destruct H4 as (ps & D). destruct ps as [|p ps]; [|discriminate]. inversion D.
           repeat split; try assumption; discriminate.
-        - destruct Hm as (A & B & C & H).
-          destruct H as [H|[H|[H|[H|H]]]]; destruct H as (H1 & H2 & H3 & H4); try congruence; try discriminate. }
+        - destruct Hm as (A & B & C & H). sstat_cases H; try congruence; try discriminate. }
       rewrite Ha. destruct (mtx s) as [t|] eqn:Et.
       * (* blocked *) exact Hinv.
-      * unfold inv, sstat in *. unfold Q at 1 2 3 4 5 6 7 8. sc. fold (r ++ queue s). rewrite Hr in *.
+      * unfold inv, sstat, dfact, cur in *. unfold Q at 1 2 3 4 5 6 7 8. sc. fold (r ++ queue s).
+        rewrite Hr in *. rewrite Es in Hi, Hd.
         split; [exact Hz|]. split; [exact Hi|]. split; [exact Hd|]. split; [exact Hl|].
         destruct (mpc s); try congruence.
         -- destruct Hm as (A & B & _). congruence.
         -- repeat split; try assumption; try discriminate. right; left. auto.
         -- repeat split; try assumption; try discriminate. right; left. auto.
+  - (* SSaving: one system call of the save, or its return *)
+    assert (match mpc s with
+            | MIdle => alive s = false /\ mtx s = None /\ exists ps, Q s = map ISave ps
+            | MLocked => alive s = true /\ mtx s = Some TM /\ done s = false /\ exists ps, Q s = map ISave ps
+            | MPushed => alive s = true /\ mtx s = Some TM /\ done s = false /\ mtx s <> Some TS /\ exists ps, Q s = map ISave ps ++ [IMarker]
+            | MWaiting | MWoken => alive s = true /\ mtx s <> Some TM /\ done s = false /\ mtx s <> Some TS /\ exists ps, Q s = map ISave ps ++ [IMarker]
+            | MDoneSeen => False
+            end) as Hm'.
+    { unfold sstat in Hm. destruct (mpc s).
+      - destruct Hm as (A & B & C & D). auto.
+      - destruct Hm as (A & B & C & D & F). auto.
+      - destruct Hm as (A & B & H). sstat_cases H; try congruence. auto 6.
+      - destruct Hm as (A & B & H). sstat_cases H; try congruence. auto 6.
+      - destruct Hm as (A & B & H). sstat_cases H; try congruence. auto 6.
+      - destruct Hm as (A & B & C & H). sstat_cases H; congruence. }
+    assert (forall s', mpc s' = mpc s -> alive s' = alive s -> mtx s' = mtx s -> done s' = done s -> Q s' = Q s ->
+            srunb (spc s') = true ->
+            match mpc s' with
+            | MIdle => alive s' = false /\ srunb (spc s') = true /\ mtx s' = None /\ exists ps, Q s' = map ISave ps
+            | MLocked => alive s' = true /\ srunb (spc s') = true /\ mtx s' = Some TM /\ done s' = false /\
+                         exists ps, Q s' = map ISave ps
+            | MPushed => alive s' = true /\ mtx s' = Some TM /\ sstat s'
+            | MWaiting | MWoken => alive s' = true /\ mtx s' <> Some TM /\ sstat s'
+            | MDoneSeen => alive s' = true /\ mtx s' = Some TM /\ done s' = true /\ sstat s'
+            end) as K.
+    { intros s' E1 E2 E3 E4 E5 E6. unfold sstat. rewrite E1, E2, E3, E4, E5, E6.
+      destruct (mpc s).
+      - destruct Hm' as (A & B & C). auto.
+      - destruct Hm' as (A & B & C & D). auto.
+      - destruct Hm' as (A & B & C & D & F). repeat split; try assumption. left. auto.
+      - destruct Hm' as (A & B & C & D & F). repeat split; try assumption. left. auto.
+      - destruct Hm' as (A & B & C & D & F). repeat split; try assumption. left. auto.
+      - contradiction. }
+    unfold dfact in Hd. rewrite Es in Hd. destruct Hd as (df & R & Ef).
+    unfold cur in Hi. rewrite Es in Hi.
+    destruct rest as [|c rest'].
+    + (* the save returns *)
+      cbn [fs_run] in R. inversion R; subst df.
+      unfold inv. split; [exact Hz|]. split; [|split; [|split; [exact Hl|]]].
+      * unfold cur, Q in *. sc. rewrite Hi, <- !app_assoc. reflexivity.
+      * unfold dfact. sc. intros m0 H. rewrite last_opt_snoc in H. congruence.
+      * apply K; reflexivity.
+    + cbn [fs_run] in R. destruct (fs_step (sdisk s) c) as [d1|] eqn:E1; [|discriminate].
+      unfold inv. split; [exact Hz|]. split; [|split; [|split; [exact Hl|]]].
+      * unfold cur, Q in *. sc. exact Hi.
+      * unfold dfact. sc. exists df. auto.
+      * apply K; reflexivity.
   - (* SMLocked: set the flag *)
+    unfold sstat in Hm. rewrite ?Es in Hm. cbn [srunb] in Hm.
     assert (alive s = true /\ mtx s = Some TS /\ Q s = [] /\ mpc s <> MIdle /\ mpc s <> MLocked) as (Ha & Hx & Hq & N1 & N2).
     { destruct (mpc s).
       - destruct Hm as (_ & B & _). congruence.
       - destruct Hm as (_ & B & _). congruence.
-      - destruct Hm as (A & B & H). destruct H as [H|[H|[H|[H|H]]]]; destruct H as (H1 & H2 & H3 & H4); try congruence.
-      - destruct Hm as (A & B & H). destruct H as [H|[H|[H|[H|H]]]]; destruct H as (H1 & H2 & H3 & H4); try congruence.
+      - destruct Hm as (A & B & H). sstat_cases H; try congruence.
+      - destruct Hm as (A & B & H). sstat_cases H; try congruence.
         repeat split; try assumption; discriminate.
-      - destruct Hm as (A & B & H). destruct H as [H|[H|[H|[H|H]]]]; destruct H as (H1 & H2 & H3 & H4); try congruence.
+      - destruct Hm as (A & B & H). sstat_cases H; try congruence.
         repeat split; try assumption; discriminate.
-      - destruct Hm as (A & B & C & H). destruct H as [H|[H|[H|[H|H]]]]; destruct H as (H1 & H2 & H3 & H4); congruence. }
-    rewrite Ha. unfold inv, sstat, Q in *. sc.
+      - destruct Hm as (A & B & C & H). sstat_cases H; congruence. }
+    rewrite Ha. unfold inv, sstat, Q, dfact, cur in *. sc. rewrite Es in Hi, Hd.
     split; [exact Hz|]. split; [exact Hi|]. split; [exact Hd|]. split; [exact Hl|].
     destruct (mpc s); try congruence.
     + destruct Hm as (A & B & _). congruence.
@@ -214,32 +275,34 @@ Proof.
     + repeat split; try assumption; try congruence. right; right; left. auto.
     + destruct Hm as (A & B & _). congruence.
   - (* SMSet: signal *)
+    unfold sstat in Hm. rewrite ?Es in Hm. cbn [srunb] in Hm.
     assert (alive s = true /\ mtx s = Some TS /\ Q s = [] /\ done s = true /\ (mpc s = MWaiting \/ mpc s = MWoken)) as (Ha & Hx & Hq & Hdn & Hw).
     { destruct (mpc s).
       - destruct Hm as (_ & B & _). congruence.
       - destruct Hm as (_ & B & _). congruence.
-      - destruct Hm as (A & B & H). destruct H as [H|[H|[H|[H|H]]]]; destruct H as (H1 & H2 & H3 & H4); try congruence.
-      - destruct Hm as (A & B & H). destruct H as [H|[H|[H|[H|H]]]]; destruct H as (H1 & H2 & H3 & H4); try congruence. auto 6.
-      - destruct Hm as (A & B & H). destruct H as [H|[H|[H|[H|H]]]]; destruct H as (H1 & H2 & H3 & H4); try congruence. auto 6.
-      - destruct Hm as (A & B & C & H). destruct H as [H|[H|[H|[H|H]]]]; destruct H as (H1 & H2 & H3 & H4); try congruence. }
+      - destruct Hm as (A & B & H). sstat_cases H; try congruence.
+      - destruct Hm as (A & B & H). sstat_cases H; try congruence. auto 6.
+      - destruct Hm as (A & B & H). sstat_cases H; try congruence. auto 6.
+      - destruct Hm as (A & B & C & H). sstat_cases H; try congruence. }
     rewrite Ha.
     assert (forall s', mpc s' = MWoken -> alive s' = true -> mtx s' = Some TS -> Q s' = [] -> done s' = true ->
-            spc s' = SMSignalled -> hazard s' = false -> issued s' = completed s' ++ saves_of (Q s') ->
-            (forall m, last_opt (completed s') = Some m -> f_conf (sdisk s') = Some (save_bytes m)) ->
-            Forall sync_ok (synclog s') -> inv s') as K.
+            spc s' = SMSignalled -> hazard s' = false -> issued s' = completed s' ++ cur s' ++ saves_of (Q s') ->
+            dfact s' -> Forall sync_ok (synclog s') -> inv s') as K.
     { intros s' P1 P2 P3 P4 P5 P6 P7 P8 P9 P10. unfold inv. rewrite P1.
       repeat split; try assumption; try congruence. unfold sstat. right; right; right; left. auto. }
-    destruct Hw as [Hw|Hw]; rewrite Hw; apply K; unfold Q in *; sc; try assumption; reflexivity.
+    unfold dfact, cur in Hd, Hi. rewrite Es in Hd, Hi.
+    destruct Hw as [Hw|Hw]; rewrite Hw; apply K; unfold Q, dfact, cur in *; sc; try assumption; reflexivity.
   - (* SMSignalled: unlock *)
+    unfold sstat in Hm. rewrite ?Es in Hm. cbn [srunb] in Hm.
     assert (alive s = true /\ mtx s = Some TS /\ Q s = [] /\ done s = true /\ (mpc s = MWaiting \/ mpc s = MWoken)) as (Ha & Hx & Hq & Hdn & Hw).
     { destruct (mpc s).
       - destruct Hm as (_ & B & _). congruence.
       - destruct Hm as (_ & B & _). congruence.
-      - destruct Hm as (A & B & H). destruct H as [H|[H|[H|[H|H]]]]; destruct H as (H1 & H2 & H3 & H4); try congruence.
-      - destruct Hm as (A & B & H). destruct H as [H|[H|[H|[H|H]]]]; destruct H as (H1 & H2 & H3 & H4); try congruence. auto 6.
-      - destruct Hm as (A & B & H). destruct H as [H|[H|[H|[H|H]]]]; destruct H as (H1 & H2 & H3 & H4); try congruence. auto 6.
-      - destruct Hm as (A & B & C & H). destruct H as [H|[H|[H|[H|H]]]]; destruct H as (H1 & H2 & H3 & H4); try congruence. }
-    rewrite Ha. unfold inv, sstat, Q in *. sc.
+      - destruct Hm as (A & B & H). sstat_cases H; try congruence.
+      - destruct Hm as (A & B & H). sstat_cases H; try congruence. auto 6.
+      - destruct Hm as (A & B & H). sstat_cases H; try congruence. auto 6.
+      - destruct Hm as (A & B & C & H). sstat_cases H; try congruence. }
+    rewrite Ha. unfold inv, sstat, Q, dfact, cur in *. sc. rewrite Es in Hi, Hd.
     split; [exact Hz|]. split; [exact Hi|]. split; [exact Hd|]. split; [exact Hl|].
     destruct Hw as [Hw|Hw]; rewrite Hw; (repeat split; try assumption; try discriminate);
       right; right; right; right; repeat split; try assumption; discriminate.
@@ -302,7 +365,7 @@ Lemma old_sync_returns_early :
   let d0 := {| f_conf := None; f_tmp := None |} in
   let s := run false old_sync_schedule (init [MSave m; MSync] d0) in
   synclog s = [([m], [], d0)] /\ hazard s = false /\
-  hazard (run false [CSaver; CSaver; CSaver] s) = true.
+  hazard (run false (repeat CSaver 8) s) = true.
 Proof. vm_compute. repeat split. Qed.
 (* the same schedule with the fix: Synchronize is still waiting *)
 Lemma fixed_sync_same_schedule :
@@ -315,7 +378,20 @@ Proof. vm_compute. split; reflexivity. Qed.
 Lemma fixed_sync_completes :
   let m := [([107], [118])] in
   let d0 := {| f_conf := None; f_tmp := None |} in
-  let s := run true (old_sync_schedule ++ [CSaver; CSaver; CSaver; CSaver; CSaver; CSaver; CSaver; CMain; CMain; CMain; CMain])
+  let s := run true (old_sync_schedule ++ repeat CSaver 11 ++ repeat CMain 4)
                (init [MSave m; MSync] d0) in
   exists dk, synclog s = [([m], [m], dk)] /\ f_conf dk = Some (save_bytes m) /\ mpc s = MIdle /\ prog s = [].
 Proof. vm_compute. eexists. repeat split. Qed.
+
+(* the schedule space contains overlaps: here the second SavePreferences is issued while the saver
+   is between the open and the first write of the first save; Synchronize still returns with both
+   saves complete and the file holding the second *)
+Lemma overlap_schedule_example :
+  let a := [([107], [49])] in
+  let b := [([107], [50])] in
+  let d0 := {| f_conf := None; f_tmp := None |} in
+  let s1 := run true [CMain; CSaver; CSaver; CSaver; CMain] (init [MSave a; MSave b; MSync] d0) in
+  let s2 := run true (repeat CMain 3 ++ repeat CSaver 16 ++ repeat CMain 3) s1 in
+  (exists rest, spc s1 = SSaving a rest /\ length rest = 3%nat /\ issued s1 = [a; b] /\ completed s1 = []) /\
+  exists dk, synclog s2 = [([a; b], [a; b], dk)] /\ f_conf dk = Some (save_bytes b) /\ prog s2 = [].
+Proof. vm_compute. split; [eexists; repeat split|eexists; repeat split]. Qed.
